@@ -137,7 +137,7 @@ example : let s : St := { role := .controlled, state := .checking, remotes := []
 accept is answered and otherwise ignored — for every state, role, socket kind, source address, with or
 without USE-CANDIDATE. -/
 theorem unauth_request_inert_step (s : St) (sock : Sock) (src : Addr) (r : Req) (hw : s.webrtc = true)
-    (hr : r.accepted = false) : step s sock src (.request r) = (s, { replied := true }) := by
+    (hr : r.accepted = false) : step s sock src (.request r) = (s, { replied := sock.canSend }) := by
   simp [step, handleRequest_unauth s sock src r hw hr]
 
 /-- the credential check is sound: it accepts only datagrams that really carry the credentials -/
